@@ -13,10 +13,20 @@ from pedal.sandbox.result import unwrap_value
 HERE = os.path.dirname(os.path.abspath(__file__))
 
 
-def sandbox_side(src, inputs, calls):
-    contextualize_report(src)
+def sandbox_side(src, inputs, calls, files=None, threaded=False):
+    if files:
+        from pedal.core.submission import Submission
+        MAIN_REPORT.clear()
+        allf = dict(files)
+        allf['answer.py'] = src
+        contextualize_report(Submission(files=allf, main_file='answer.py'))
+    else:
+        contextualize_report(src)
     S.clear_sandbox()
     sb = S.get_sandbox()
+    if threaded:
+        sb.threaded = True
+        sb.allowed_time = 10
     if inputs:
         S.set_input(list(inputs))
     try:
@@ -64,21 +74,25 @@ def dump(sb):
     return data
 
 
-def plain_side(src, inputs, calls):
+def plain_side(src, inputs, calls, files=None):
     d = tempfile.mkdtemp(dir='/var/tmp')
     sp = os.path.join(d, 'answer_src.py')
     op = os.path.join(d, 'out.json')
     open(sp, 'w', encoding='utf8').write(src)
     env = {k: v for k, v in os.environ.items() if k not in ('PYTHONPATH',)}
+    for name, text in (files or {}).items():
+        open(os.path.join(d, name), 'w', encoding='utf8').write(text)
+    if files:
+        env['PYTHONPATH'] = d
+        env['PYTHONDONTWRITEBYTECODE'] = '1'
     p = subprocess.run([sys.executable, '-S', os.path.join(HERE, 'c06_plain.py'), sp, op, json.dumps(calls)],
                        input=''.join(i + '\n' for i in list(inputs) + ['0'] * 400), text=True, capture_output=True, env=env, cwd=d, timeout=60)
     try:
         res = json.load(open(op))
     except Exception:
         res = {'plain_failed': p.stderr[-300:]}
-    for f in os.listdir(d):
-        os.unlink(os.path.join(d, f))
-    os.rmdir(d)
+    import shutil
+    shutil.rmtree(d, ignore_errors=True)
     return res
 
 
@@ -129,8 +143,8 @@ def main():
         return
     out = []
     for p in data['programs']:
-        out.append({'sandbox': sandbox_side(p['src'], p['inputs'], p.get('calls', [])),
-                    'plain': plain_side(p['src'], p['inputs'], p.get('calls', []))})
+        out.append({'sandbox': sandbox_side(p['src'], p['inputs'], p.get('calls', []), p.get('files'), p.get('threaded', False)),
+                    'plain': plain_side(p['src'], p['inputs'], p.get('calls', []), p.get('files'))})
     json.dump(out, open(sys.argv[1], 'w'))
 
 
